@@ -192,10 +192,10 @@ fn plan_inner(prop: &str, tier: &str) -> Option<Plan> {
                         jobs.extend(sharded(prop, "deepchain", f, tier, json!({}), 4));
                     }
                     // every small shape behind a corridor / fan of m discovered nodes
-                    let (pm, pl, psh): (Vec<usize>, usize, usize) = if tier == "quick" { (vec![15, 16, 17, 31, 32, 33], 2, 8) } else { (vec![7, 8, 9, 15, 16, 17, 31, 32, 33, 47, 48, 49], 3, 32) };
+                    let (pm, pl, psh): (Vec<usize>, usize, usize) = if tier == "quick" { (if prop == "C06" { vec![16, 17, 32, 33] } else { vec![15, 16, 17, 31, 32, 33] }, 2, 8) } else { (vec![7, 8, 9, 15, 16, 17, 31, 32, 33, 47, 48, 49], 3, 32) };
                     jobs.extend(sharded(prop, "gsweep", f, tier, json!({"n": 3, "max_l": pl, "prefix": pm}), psh));
                     // high-degree hubs on 4 nodes: every degree 1..=72 (quick) / 1..=120 (thorough)
-                    jobs.extend(sharded(prop, "gsweep", f, tier, json!({"n": 0, "max_l": 0, "hubs": if tier == "quick" { 72 } else { 120 }}), if tier == "quick" { 4 } else { 8 }));
+                    jobs.extend(sharded(prop, "gsweep", f, tier, json!({"n": 0, "max_l": 0, "hubs": if tier == "quick" { if prop == "C06" { 40 } else { 72 } } else { 120 }}), if tier == "quick" { 4 } else { 8 }));
                 }
                 // larger graphs up to renaming of the nodes (value-independent kinds only: bfs, dfs, orderings)
                 if matches!(prop, "C04" | "C05" | "C09" | "C10") {
@@ -215,7 +215,7 @@ fn plan_inner(prop: &str, tier: &str) -> Option<Plan> {
                 for interf in 1..=2u8 {
                     let ib: Vec<(usize, usize, usize)> = if tier == "quick" { vec![(3, 2, 8)] } else { vec![(3, 3, 16), (4, 2, 16)] };
                     for (n, l, sh) in ib {
-                        let vr = if prop == "C06" { 2 } else { 0 };
+                        let vr = if prop == "C06" && tier != "quick" { 2 } else { 0 };
                         jobs.extend(sharded(prop, "gsweep", f, tier, json!({"n": n, "max_l": l, "val_range": vr, "interf": interf}), sh));
                     }
                 }
